@@ -63,23 +63,17 @@ def run(ctx, chk):
 
     R5 = chk.rule("S5-HEADER", "the loader keeps the parsed header (consume_header stores it); parse_header builds it from word 3 (bound) "
                   "and word 1 (version); the assembler emits magic, version, generator, bound, reserved in that order")
-    f = ctx.rspirv.fn("rspirv::dr::loader", "consume_header", "Loader", "Consumer")
-    hp = f["sig"]["params"][1][0]
-    st = [show_stmt(s) for s in f["body"][1]]
-    chk.check(R5, st == ["self.module.header = Some(%s);" % hp, "ParseAction::Continue"], "Loader::consume_header", "is %s" % st,
-              raw.where("consume_header", "Loader"))
-    from . import c03
-    pf = ctx.rspirv.fn("rspirv::binary::parser", "parse_header", "Parser")
-    import re
-    hv = [show(n) for n in walk(pf["body"]) if n[0] == "call" and (path_of(n[1]) or "").endswith("ModuleHeader::new")]
-    vv = [show(n) for n in walk(pf["body"]) if n[0] == "call" and (path_of(n[1]) or "").endswith("create_version_from_word")]
-    chk.check(R5, len(hv) == 1 and re.search(r"\(\w+\[3\]\)$", hv[0]) is not None, "bound=word[3]", "header built as %s" % hv, raw.where("parse_header", "Parser"))
-    chk.check(R5, len(vv) == 1 and re.search(r"\(\w+\[1\]\)$", vv[0]) is not None, "version=word[1]", "version read as %s" % vv, raw.where("parse_header", "Parser"))
-    hn = ctx.rspirv.fn("rspirv::dr::constructs", "new", "ModuleHeader", False)
-    flds = [n for n in walk(hn["body"]) if n[0] == "struct" and n[1].split("::")[-1] == "ModuleHeader"]
-    d = dict((a, show(b)) for a, b in flds[0][2]) if flds else {}
-    chk.check(R5, d.get("bound") == hn["sig"]["params"][0][0] and d.get("magic_number") == "spirv::MAGIC_NUMBER" and d.get("reserved_word") == "0",
-              "ModuleHeader::new", "fields %s" % d, raw.where("new", "ModuleHeader"))
+    from . import headerx
+    try:
+        act, ld = headerx.consume_header(ctx)
+        good = act == ("enum", "ParseAction::Continue", []) and ld[2]["module"][2].get("header") == ("some", ("sym", "HEADER"))
+        chk.check(R5, good, "Loader::consume_header", "consume_header(HEADER) on a new loader answers %s and leaves module.header = %s" % (
+            headerx.short(act), headerx.short(ld[2]["module"][2].get("header"))), raw.where("consume_header", "Loader"))
+    except Anchor as ex:
+        chk.bad(R5, "Loader::consume_header", "not analysable: %s" % ex, raw.where("consume_header", "Loader"))
+    for inst, pb, sample in headerx.header_problems(ctx):
+        if "magic number)" in inst and "swapped" not in inst:
+            chk.check(R5, pb is None, "parse_header:bound=word 3,version=word 1", "%s %s" % (inst, pb), raw.where("parse_header", "Parser"), sample=sample)
     from . import c06
     # version pack/unpack inverse (R-VER of C06) is evaluated there; re-evaluate the two functions here
     from . import lookx, asmx
